@@ -33,8 +33,12 @@ def st_noresp():
     return st_case(grid_response=False)
 
 
-def st_resp_sl():
-    return st_case(families=("sl",), grid_response=True)
+@st.composite
+def st_resp_sl(draw):
+    case = draw(st_case(families=("sl",), grid_response=True))
+    # a quarter of the semilocal full-response cases carry PySCF's VV10 term (separate grid, separate response block)
+    case["nlc"] = draw(st.sampled_from(range(4))) == 0
+    return case
 
 
 def st_resp_nldf():
@@ -63,6 +67,10 @@ def _scf(case, atoms, dm0=None, frozen_grid=None):
                          nldf_init=nldf_init)
     if case["df"]:
         mf = mf.density_fit() if not hasattr(mf, "with_df") or mf.with_df is None else mf
+    if case.get("nlc"):
+        # the VV10 nonlocal correlation term of PySCF on top of the CIDER functional (its own, coarse grid)
+        mf.nlc = "vv10"
+        mf.nlcgrids.level = 0
     mf.conv_tol = 1e-10
     # the forces are first order in the residual orbital gradient: 5e-7 keeps that error below the 5e-6 tolerance even
     # with a response factor of 10 (thorough tier: an OH/sto-3g UKS case "converged" at 3e-6 was 4e-5 off and does not
@@ -97,6 +105,8 @@ def _run(case, ctx):
     ctx.event("df" if case["df"] else "nodf")
     ctx.event("grid_response" if case["grid_response"] else "no_grid_response")
     ctx.event("xc2" if case["model"]["xc2"] else "xc1")
+    if case.get("nlc"):
+        ctx.event("vv10")
     if case["model"]["nldf"]:
         ctx.event("nldf=%s/%s/%s" % (case["model"]["nldf"]["version"], case["calc"]["plan_type"], case["calc"]["interp"]))
     coords = np.array([p for _, p in mspec["atoms"]])
@@ -205,7 +215,7 @@ def forces_no_grid_response(case, ctx):
 
 
 @subcheck("C17", "forces_grid_response_sl", st_resp_sl, quick=16, thorough=240, tolerances=TOL, shrink=False,
-          rule=RULE + "grid_response=True, semilocal features: |u.F - FD| <= 5e-6 Eh/bohr, sum of forces <= 1e-8")
+          rule=RULE + "grid_response=True, semilocal features, a quarter of the cases with PySCF's VV10 term (nlc = 'vv10') added: |u.F - FD| <= 5e-6 Eh/bohr, sum of forces <= 1e-8")
 def forces_grid_response_sl(case, ctx):
     _run(case, ctx)
 
